@@ -44,6 +44,7 @@ def check_bin(name, n, impl, ref, maxpaths=20000):
     x = z3.BitVec("x", n); y = z3.BitVec("y", n)
     pre = z3.And(wellformed(*A, n), wellformed(*B, n), member(x, *A, n), member(y, *B, n))
     def run():
+        ENG.assume(pre)
         a = SI(bits=n, stride=lift(A[0], n), lower_bound=lift(A[1], n), upper_bound=lift(A[2], n))
         b = SI(bits=n, stride=lift(B[0], n), lower_bound=lift(B[1], n), upper_bound=lift(B[2], n))
         return impl(a, b)
@@ -85,6 +86,9 @@ tests = [
  ("or", lambda a, b: a.bitwise_or(b), lambda x, y: x | y),
  ("union", lambda a, b: a.union(b), lambda x, y: x),
  ("isect", lambda a, b: a.intersection(b), lambda x, y: x),
+ ("mul", lambda a, b: a.mul(b), lambda x, y: x * y),
+ ("xor", lambda a, b: a.bitwise_xor(b), lambda x, y: x ^ y),
+ ("lshr", lambda a, b: a.rshift_logical(b), lambda x, y: z3.LShR(x, y)),
 ]
 for nm, impl, ref in tests:
     if which and nm not in which: continue
